@@ -49,6 +49,9 @@ func ruleStableOrder(p *Prog, l *Ledger, tier string) {
 		for _, ins := range b.Instrs {
 			if c, ok := ins.(*ssa.Call); ok {
 				if sc := c.Call.StaticCallee(); sc != nil && sc.Pkg != nil && (sc.Pkg.Pkg.Path() == "sort" || sc.Pkg.Pkg.Path() == "slices") {
+					if strings.Contains(sc.Name(), "IsSorted") || strings.HasPrefix(sc.Name(), "Search") || strings.HasPrefix(sc.Name(), "Binary") {
+						continue // queries do not permute
+					}
 					sorts = append(sorts, c)
 				}
 			}
